@@ -74,17 +74,17 @@ pub(super) fn graph_json(
         {
             let strip = |t: &Type| {
                 if let Type::Reference(r) = t {
-                    r.inner.deref().to_owned()
+                    r.inner.deref().canonicalize()
                 } else {
-                    t.to_owned()
+                    t.canonicalize()
                 }
             };
-            let tied_tys: Vec<Type> = callable
+            let tied_tys: Vec<_> = callable
                 .inputs_with_lifetime_tied_with_output()
                 .iter()
                 .map(|&i| strip(&callable.inputs()[i].type_))
                 .collect();
-            let direct_tys: Vec<Type> = callable
+            let direct_tys: Vec<_> = callable
                 .inputs_that_output_borrows_immutably_from()
                 .iter()
                 .map(|&i| strip(&callable.inputs()[i].type_))
@@ -103,6 +103,7 @@ pub(super) fn graph_json(
                     CallGraphNode::InputParameter { type_, .. } => Some(type_.to_owned()),
                 };
                 let Some(dep_ty) = dep_ty else { continue };
+                let dep_ty = dep_ty.canonicalize();
                 if tied_tys.contains(&dep_ty) {
                     tied.push(dep.index());
                 }
